@@ -800,6 +800,7 @@ type c20Plan struct {
 	DeepFull3    bool
 	DeepQuad     bool // add the quads
 	DeepMinFS    int
+	DeepMinRows  int // deep families only on records of >= DeepMinRows rows (a second plan continues where another one stops)
 	DeepTimes    []c20TimeRange
 	DeepSettings []c20Setting
 }
@@ -807,6 +808,7 @@ type c20Plan struct {
 // c20Class: the bounds shared by a family of condition trees of a plan.
 type c20Class struct {
 	maxRow int // largest record the trees are run on
+	minRow int // smallest record the trees are run on
 	minFS  int // records of exactly maxRow rows: only layouts whose largest fragment has >= minFS rows
 	times  []c20TimeRange
 	sets   []c20Setting
@@ -893,14 +895,14 @@ func c20Plans(thorough bool) []c20Plan {
 		c20Plan{Schema: mk("iw,sw", c20IntGapCol("iw", false), c20StrCol("sw", false, false)), Rows: [3]int{4, 0, 0}, Times: nt,
 			Settings: [3][]c20Setting{set1, set1, set1}, Wide3: 4},
 		// ---- recursion depth >= 2 of checkInAnyRange (three and four used key columns), see c20Plan.Deep
-		// tiny domains: (a) records <= 3 rows, every layout, triples over the FULL comparison alphabet;
-		// (b) records <= 5 rows, every layout, three coarse-index settings, reduced triples
+		// tiny domains: (a) records <= 3 rows, every layout, triples over the FULL comparison alphabet (a superset of the
+		// reduced one); (b) records of 4 and 5 rows, every layout, three coarse-index settings, reduced triples
 		c20Plan{Schema: mk("i,j,k", c20IntCol("i", false, false), c20IntCol("j", false, false), c20IntCol("k", false, false)),
 			Rows: [3]int{5, 0, 0}, Times: nt, Settings: sMid,
 			Deep: 3, DeepMinFS: 1, DeepFull3: true, DeepTimes: noTime, DeepSettings: set2},
 		c20Plan{Schema: mk("i,j,k-long", c20IntCol("i", false, false), c20IntCol("j", false, false), c20IntCol("k", false, false)),
 			Rows: [3]int{0, 0, 0}, Times: nt, Settings: sMid,
-			Deep: 5, DeepMinFS: 1, DeepTimes: noTime, DeepSettings: setCoarse3},
+			Deep: 5, DeepMinRows: 4, DeepMinFS: 1, DeepTimes: noTime, DeepSettings: setCoarse3},
 		// nulls in the first two of three key columns
 		c20Plan{Schema: mk("in,jn,k", c20IntCol("in", false, true), c20IntCol("jn", false, true), c20IntCol("k", false, false)),
 			Rows: [3]int{4, 0, 0}, Times: nt, Settings: sMid,
@@ -949,7 +951,7 @@ func c20NewPKRun(p *c20Plan, rep *kit.Report, wi *int) *c20PKRun {
 		r.classes = append(r.classes, c20Class{maxRow: p.Rows[k], times: p.Times[k], sets: p.Settings[k]})
 	}
 	r.classes = append(r.classes, c20Class{maxRow: p.Wide3, times: p.Times[2], sets: p.Settings[2]},
-		c20Class{maxRow: p.Deep, minFS: p.DeepMinFS, times: p.DeepTimes, sets: p.DeepSettings})
+		c20Class{maxRow: p.Deep, minRow: p.DeepMinRows, minFS: p.DeepMinFS, times: p.DeepTimes, sets: p.DeepSettings})
 	for _, c := range r.classes {
 		if c.maxRow > r.nMax {
 			r.nMax = c.maxRow
@@ -1199,7 +1201,7 @@ func (r *c20PKRun) run() {
 			// does any condition family run on this (record size, layout)?
 			used := false
 			for _, cl := range r.classes {
-				if n <= cl.maxRow && !(n == cl.maxRow && maxFrag < cl.minFS) {
+				if n <= cl.maxRow && n >= cl.minRow && !(n == cl.maxRow && maxFrag < cl.minFS) {
 					used = true
 				}
 			}
@@ -1259,7 +1261,7 @@ func (r *c20PKRun) group(recs [][]c20Row, members []int, layout, bounds []int, n
 	var evals, nontrivial int64
 	for ci, c := range r.conds {
 		cl := &r.classes[r.class[ci]]
-		if n > cl.maxRow || (n == cl.maxRow && maxFrag < cl.minFS) {
+		if n > cl.maxRow || n < cl.minRow || (n == cl.maxRow && maxFrag < cl.minFS) {
 			continue
 		}
 		times, sets := cl.times, cl.sets
